@@ -16,7 +16,7 @@ func init() {
 	register(&PropMeta{
 		ID:          "C06",
 		Level:       "other",
-		Explanation: "Decides the table- and shape-level clauses: (R1) for every player count n the label table returns n pairwise-distinct labels beginning dealer, sb, bb (read from the typed syntax tree with constant evaluation); (R2) the rotation constant equals the index of the bb label in every row, the heads-up row is [bb], [dealer, sb], the rotate helper is append(src[k:], src[:k]...); (R3) player labels are written only by the position updater, by the continue reset (empty) and at construction (empty); (R4) the hand engine receives the same player's labels as stack (as C01.R4) and entry 0 gets a dealer label only when it has none; (R5) the next-BB list is built by a loop over bb+1 … bb+N modulo the same N, appending the id of the seat's player iff the seat is occupied and that player's bankroll is positive, is stored at settlement from the seat manager's current BB seat and reset by the continue step; (R6) the published dealer/SB/BB seats are stored from the seat manager's dealer/SB/BB getters respectively. NOT decided: label order for dead button / dead small blind / sitting-out layouts (slot counting over seat states).",
+		Explanation: "Decides the table- and shape-level clauses: (R1) for every player count n the label table returns n pairwise-distinct labels beginning dealer, sb, bb (read from the typed syntax tree with constant evaluation); (R2) the rotation constant equals the index of the bb label in every row, the heads-up row is [bb], [dealer, sb], the rotate helper is append(src[k:], src[:k]...); (R3) player labels are written only by the position updater, by the continue reset (empty) and at construction (empty); (R4) the hand engine receives the same player's labels as stack (as C01.R4) and entry 0 gets a dealer label only when it has none; (R5) the next-BB list is built by a loop over bb+1 … bb+N modulo the same N, appending the id of the seat's player iff the seat is occupied and that player's bankroll is positive, is stored at settlement from the seat manager's current BB seat and reset by the continue step; (R6) the published dealer/SB/BB seats are stored from the seat manager's dealer/SB/BB getters respectively. Also decided since (see the rule list): the dead-label skip (R7), label assignment pairing (R8), the slot loop of the position updater path by path (R11) and the start of the hand list (R10). NOT decided: that the label order is poker's for every dead-button / dead-small-blind / sitting-out layout taken as a whole (the loops are decided one iteration at a time, not their result over all seat states).",
 		Rules: map[string]string{
 			"R1":  "label table well-formed for every row",
 			"R2":  "rotation constant = index of bb; heads-up row; rotate helper shape",
